@@ -204,21 +204,28 @@ func (w *c16world) edgeRegion(p *c16pkg, ips string) string {
 	underG := c16HasPrefix(w.gsrc, d)
 	isEntryFile := w.c.File && p.Dir == w.c.Entry
 	entry := c16Split(w.c.Entry)
+	rp, chain := w.rpOf(d) // the rPath yaegi gives this package; chain: it is relative to the entry file
+	if isEntryFile {
+		rp, chain = []string{"main"}, true
+	}
 	if c16IsRel(ip) {
-		if !w.c.File || underG || !c16HasPrefix(entry, d) {
+		if !w.c.File || !chain {
 			return "relative-nonentry"
 		}
-		rp := d[len(entry):]
+		if isEntryFile {
+			rp = nil
+		}
 		target := c16Clean(append(append([]string{}, d...), ip...))
 		if !c16HasPrefix(entry, target) {
 			return "relative-root"
 		}
-		if strings.Join(c16Eff(rp, ip), "/") != strings.Join(target[len(entry):], "/") {
+		trp, tchain := w.rpOf(target)
+		if !tchain || strings.Join(c16Eff(rp, ip), "/") != strings.Join(trp, "/") {
 			return "relative-root"
 		}
 		return ""
 	}
-	if underG && !isEntryFile {
+	if underG && !chain {
 		rel := d[len(w.gsrc):]
 		for k := 0; k <= len(rel); k++ {
 			if w.stat(w.gsrc, rel[:k], []string{c16Vendor}, ip) && !w.hasgo(w.gsrc, rel[:k], []string{c16Vendor}, ip) {
@@ -238,30 +245,26 @@ func (w *c16world) edgeRegion(p *c16pkg, ips string) string {
 				return "subdir-shadow"
 			}
 		}
+		// what the package's own walk does not find, the second attempt (from the entry file's
+		// directory) must not find either
+		if _, _, ok := w.yWalk(rel, ip); !ok {
+			if _, _, ok2 := w.yWalk(w.retryRoot(), ip); ok2 {
+				return "source-location-retry"
+			}
+		}
 		return ""
 	}
-	// importer outside GOPATH (relative chain from the entry file), or the entry file itself:
-	// yaegi walks up from a root that is not the importer's GOPATH directory
-	root := []string{"main"}
-	if !isEntryFile {
-		if !c16HasPrefix(entry, d) {
-			return "relative-root"
-		}
-		root = d[len(entry):]
+	// the entry file, or a package reached from it by relative imports: yaegi walks up from a root
+	// that is not the importer's GOPATH directory, then from the entry file's directory
+	g, gok := w.gImport(p.Dir, ips)
+	y, yrp, yok := w.yWalk(rp, ip)
+	if !yok {
+		y, yrp, yok = w.yWalk(w.retryRoot(), ip)
 	}
-	bad := false
-	for k := 0; k <= len(root); k++ {
-		if w.stat(w.gsrc, root[:k], []string{c16Vendor}, ip) {
-			bad = true
-		}
-		if k > 0 && w.stat(w.gsrc, c16Eff(root[:k], ip)) {
-			bad = true
-		}
-	}
-	if isEntryFile && underG {
-		if g, ok := w.gResolve(d[len(w.gsrc):], ip); ok && g != c16Join(w.gsrc, ip) {
-			bad = true
-		}
+	bad := yok != gok || (yok && y != g)
+	if !bad && yok {
+		trp, _ := w.rpOf(c16Split(y))
+		bad = strings.Join(c16Eff(yrp, ip), "/") != strings.Join(trp, "/")
 	}
 	if bad {
 		if isEntryFile {
@@ -272,10 +275,76 @@ func (w *c16world) edgeRegion(p *c16pkg, ips string) string {
 	return ""
 }
 
+// rpOf is rp_of of Imports/Load.v: the rPath importSrc hands to the package of a directory —
+// relative to the entry file's directory below it (reached by relative imports; not the packages of
+// a vendor directory there), else relative to GOPATH/src.
+func (w *c16world) rpOf(d []string) (rp []string, chain bool) {
+	entry := c16Split(w.c.Entry)
+	if w.c.File && len(entry) > 0 && c16HasPrefix(entry, d) {
+		r := d[len(entry):]
+		vend := false
+		for _, x := range r {
+			vend = vend || x == c16Vendor
+		}
+		if !vend {
+			return r, true
+		}
+	}
+	if c16HasPrefix(w.gsrc, d) {
+		return d[len(w.gsrc):], false
+	}
+	return d, false
+}
+
+// retryRoot is retry_of of Imports/Model.v (rootFromSourceLocation for a run whose working
+// directory is the origin of the tree and whose entry file is named relative to it).
+func (w *c16world) retryRoot() []string {
+	entry := c16Split(w.c.Entry)
+	if w.c.File && c16HasPrefix(w.gsrc, entry) {
+		return entry[len(w.gsrc):]
+	}
+	return nil
+}
+
+// yWalk is pkgDir as specified by C16_previous_root_spec / C16_effective_pkg_spec: at each root try
+// root/vendor/ip then effectivePkg(root, ip); go to the previous root.
+func (w *c16world) yWalk(root, ip []string) (dir string, rpath []string, ok bool) {
+	r := append([]string{}, root...)
+	for n := 0; n < 64; n++ {
+		if w.stat(w.gsrc, r, []string{c16Vendor}, ip) {
+			return c16Join(w.gsrc, r, []string{c16Vendor}, ip), append(append([]string{}, r...), c16Vendor), true
+		}
+		if e := c16Eff(r, ip); w.stat(w.gsrc, e) {
+			return c16Join(w.gsrc, e), r, true
+		}
+		if len(r) == 0 {
+			return "", nil, false
+		}
+		r = w.prevRoot(r)
+	}
+	return "", nil, false
+}
+
+func (w *c16world) prevRoot(r []string) []string {
+	if !(len(r) == 1 && r[0] == "main") && r[len(r)-1] != c16Vendor {
+		for k := len(r) - 1; k >= 1; k-- {
+			if w.stat(w.gsrc, r[:k], []string{c16Vendor}) {
+				return r[:k]
+			}
+		}
+	}
+	for i := len(r) - 1; i >= 1; i-- {
+		if r[i] == c16Vendor {
+			return r[:i]
+		}
+	}
+	return nil
+}
+
 // classify returns the first region found over all imports of the program, then the
 // program-wide condition that an import path string names one directory and vice versa.
 func (w *c16world) classify() string {
-	order := []string{"xx-collapse", "vendor-in-path", "relative-nonentry", "relative-root", "entry-file-vendor", "vendor-nogofiles", "subdir-shadow"}
+	order := []string{"xx-collapse", "vendor-in-path", "relative-nonentry", "relative-root", "entry-file-vendor", "vendor-nogofiles", "subdir-shadow", "source-location-retry"}
 	found := map[string]bool{}
 	keyDirs := map[string]map[string]bool{}
 	dirKeys := map[string]map[string]bool{}
@@ -1130,9 +1199,132 @@ func (g *c16gen) cycleMatrix(maxFull, sample int) []*c16case {
 	return out
 }
 
+// ---------------------------------------------------------------- entry file inside GOPATH/src/<proj>
+
+// projCase: the entry file lies in GOPATH/src/<proj>/... (depth 1-3); a chain of relative imports of
+// length chainLen starts at it; the last package of the chain imports a path X that exists
+//
+//	nearest: only in the vendor directory of the entry file's directory
+//	gopath:  only in GOPATH/src (the project has a vendor directory with something else, or none)
+//	both:    in that vendor directory and in GOPATH/src
+//	outer:   only in the vendor directory of a proper ancestor (possibly GOPATH/src/vendor)
+//	nested:  in the nearest vendor directory and in an outer one
+//
+// with or without the main file importing X first (which puts it into the memo).
+// yaegi resolves X from a root relative to the entry file, then (rootFromSourceLocation) from the
+// entry file's directory; Go from the importing directory.
+func (g *c16gen) projCase(where string, chainLen int, mainFirst bool) *c16case {
+	pool := []string{"org", "proj", "app", "svc", "tool"}
+	g.shuffle(pool)
+	depth := 1 + g.r.intn(3)
+	gs := c16Split(c16Gsrc)
+	d := append(append([]string{}, gs...), pool[:depth]...)
+	c := &c16case{File: true, Entry: strings.Join(d, "/"), Contract: "spec"}
+	imports := map[string][]string{}
+	var order []string
+	touch := func(dir []string) string {
+		k := strings.Join(dir, "/")
+		if _, ok := imports[k]; !ok {
+			imports[k] = nil
+			order = append(order, k)
+		}
+		return k
+	}
+	touch(d)
+	x := g.r.pick([]string{"dep/a", "dx", "lib/x/y"})
+	if mainFirst {
+		imports[c.Entry] = append(imports[c.Entry], x)
+	}
+	cur := d
+	for k := 0; k < chainLen; k++ {
+		name := []string{"la", "lb", "lc"}[k]
+		var nd []string
+		var ip string
+		if k > 0 && g.r.chance(40) {
+			nd, ip = append(append([]string{}, cur[:len(cur)-1]...), name), "../"+name
+		} else {
+			nd, ip = append(append([]string{}, cur...), name), "./"+name
+		}
+		ck := strings.Join(cur, "/")
+		imports[ck] = append(imports[ck], ip)
+		touch(nd)
+		cur = nd
+	}
+	last := strings.Join(cur, "/")
+	imports[last] = append(imports[last], x)
+	place := func(host []string) {
+		dir := append(append(append([]string{}, host...), c16Vendor), c16Split(x)...)
+		k := touch(dir)
+		if g.r.chance(40) { // the vendored package has a dependency next to it
+			dep := append(append(append([]string{}, host...), c16Vendor), "depb")
+			touch(dep)
+			imports[k] = append(imports[k], "depb")
+		}
+	}
+	outer := func() []string { // a proper ancestor of the entry directory, GOPATH/src itself included
+		return d[:len(gs)+g.r.intn(depth)]
+	}
+	switch where {
+	case "nearest":
+		place(d)
+	case "gopath":
+		touch(append(append([]string{}, gs...), c16Split(x)...))
+		if g.r.bool() {
+			touch(append(append(append([]string{}, d...), c16Vendor), "other"))
+		}
+	case "both":
+		place(d)
+		touch(append(append([]string{}, gs...), c16Split(x)...))
+	case "outer":
+		place(outer())
+	case "nested":
+		place(d)
+		place(outer())
+	}
+	for _, k := range order {
+		c.Pkgs = append(c.Pkgs, c16pkg{Dir: k, Imports: imports[k]})
+	}
+	c.Region = newC16World(c).classify()
+	c.Stream = fmt.Sprintf("proj:%s:chain%d", where, chainLen)
+	if mainFirst {
+		c.Stream += ":main-first"
+	}
+	return c
+}
+
+// retryRegionCase: region "source-location-retry": a GOPATH package outside the project imports a
+// path that only exists in the vendor directory of the entry file's directory.
+func (g *c16gen) retryRegionCase() *c16case {
+	pool := []string{"org", "proj", "app"}
+	g.shuffle(pool)
+	depth := 1 + g.r.intn(2)
+	d := append(c16Split(c16Gsrc), pool[:depth]...)
+	c := &c16case{File: true, Entry: strings.Join(d, "/"), Contract: "spec"}
+	x := g.r.pick([]string{"dep/a", "dx"})
+	q := g.r.pick([]string{"q", "q/r"})
+	main := []string{q}
+	if g.r.bool() {
+		main = append(main, "./la")
+		c.Pkgs = append(c.Pkgs, c16pkg{Dir: c.Entry + "/la"})
+	}
+	c.Pkgs = append([]c16pkg{{Dir: c.Entry, Imports: main}}, c.Pkgs...)
+	c.Pkgs = append(c.Pkgs, c16pkg{Dir: c16Gsrc + "/" + q, Imports: []string{x}}, c16pkg{Dir: c.Entry + "/vendor/" + x})
+	c.Region = newC16World(c).classify()
+	c.Stream = "region:source-location-retry"
+	if c.Region != "source-location-retry" {
+		return nil
+	}
+	return c
+}
+
 // ---------------------------------------------------------------- rendering a program
 
-func c16Source(i int, p c16pkg, isMain, quiet bool) string {
+// c16Source renders a package. importAs (optional) gives, per import, the path written in the
+// import declaration when it differs from the import path of the program (reference variant).
+func c16Source(i int, p c16pkg, isMain, quiet bool, importAs []string) string {
+	if importAs == nil {
+		importAs = p.Imports
+	}
 	var b strings.Builder
 	name := fmt.Sprintf("pk%d", i)
 	if isMain {
@@ -1140,8 +1332,8 @@ func c16Source(i int, p c16pkg, isMain, quiet bool) string {
 	}
 	if quiet {
 		fmt.Fprintf(&b, "package %s\n\n", name)
-		for j, ip := range p.Imports {
-			fmt.Fprintf(&b, "import x%d %q\n", j, ip)
+		for j := range p.Imports {
+			fmt.Fprintf(&b, "import x%d %q\n", j, importAs[j])
 		}
 		fmt.Fprintf(&b, "\nvar Dir = %q\n", p.Dir)
 		for j := range p.Imports {
@@ -1153,8 +1345,8 @@ func c16Source(i int, p c16pkg, isMain, quiet bool) string {
 		return b.String()
 	}
 	fmt.Fprintf(&b, "package %s\n\nimport (\n\t\"fmt\"\n", name)
-	for j, ip := range p.Imports {
-		fmt.Fprintf(&b, "\tx%d %q\n", j, ip)
+	for j := range p.Imports {
+		fmt.Fprintf(&b, "\tx%d %q\n", j, importAs[j])
 	}
 	fmt.Fprintf(&b, ")\n\nvar Dir = %q\n\nfunc init() {\n\tfmt.Println(\"init\", Dir)\n", p.Dir)
 	for j, ip := range p.Imports {
@@ -1177,9 +1369,94 @@ func (c *c16case) mainDir() string {
 func (c *c16case) files() map[string]string {
 	m := map[string]string{}
 	for i, p := range c.Pkgs {
-		m[p.Dir+"/p.go"] = c16Source(i, p, p.Dir == c.mainDir(), c.Quiet)
+		m[p.Dir+"/p.go"] = c16Source(i, p, p.Dir == c.mainDir(), c.Quiet, nil)
 	}
 	return m
+}
+
+// refFiles is the program as given to the toolchain when it refuses relative imports inside
+// GOPATH packages (Contract "spec"): a relative import whose target lies in GOPATH/src is declared
+// by the import path of that directory — the same package for Go —, the program still prints the
+// import path as written. Everything else (vendor resolution from the importing directory, single
+// initialisation) is left to the toolchain.
+func (c *c16case) refFiles() map[string]string {
+	w := newC16World(c)
+	m := map[string]string{}
+	for i, p := range c.Pkgs {
+		as := append([]string{}, p.Imports...)
+		for j, ip := range p.Imports {
+			if !c16IsRel(c16Split(ip)) {
+				continue
+			}
+			t := c16Clean(append(c16Split(p.Dir), c16Split(ip)...))
+			if c16HasPrefix(w.gsrc, t) && len(t) > len(w.gsrc) && !strings.Contains(strings.Join(t, "/"), c16Vendor) {
+				as[j] = strings.Join(t[len(w.gsrc):], "/")
+			}
+		}
+		m[p.Dir+"/p.go"] = c16Source(i, p, p.Dir == c.mainDir(), c.Quiet, as)
+	}
+	return m
+}
+
+// relInGopath: some package below GOPATH/src has a relative import (cmd/go refuses that).
+func (c *c16case) relInGopath() bool {
+	gs := c16Split(c16Gsrc)
+	for _, p := range c.Pkgs {
+		if !c16HasPrefix(gs, c16Split(p.Dir)) {
+			continue
+		}
+		for _, ip := range p.Imports {
+			if c16IsRel(c16Split(ip)) {
+				return true
+			}
+		}
+	}
+	return false
+}
+
+// gOracle is the specification loader G (Imports/Model.v g_load) on the program: the fallback
+// reference when the toolchain refuses a layout; the Coq side compares it with G again.
+func (c *c16case) gOracle() c16out {
+	w := newC16World(c)
+	done, onstack := map[string]bool{}, map[string]bool{}
+	var lines []string
+	var load func(dir string) string
+	load = func(dir string) string {
+		if done[dir] {
+			return ""
+		}
+		if onstack[dir] {
+			return "cycle"
+		}
+		p := w.byDir[dir]
+		if p == nil {
+			if w.dirSet[dir] {
+				return "nogo"
+			}
+			return "notfound"
+		}
+		onstack[dir] = true
+		var edges []string
+		for _, ip := range p.Imports {
+			t, ok := w.gImport(dir, ip)
+			if !ok {
+				return "notfound"
+			}
+			if e := load(t); e != "" {
+				return e
+			}
+			edges = append(edges, "edge "+dir+" "+ip+" "+t)
+		}
+		onstack[dir] = false
+		done[dir] = true
+		lines = append(lines, "init "+dir)
+		lines = append(lines, edges...)
+		return ""
+	}
+	if e := load(c.mainDir()); e != "" {
+		return c16out{Err: e, Text: "spec G"}
+	}
+	return c16out{Lines: append(lines, "main "+c.mainDir()), Text: "spec G"}
 }
 
 func (c *c16case) coq() string {
@@ -1221,6 +1498,29 @@ func c16ErrClass(msg string) string {
 		return "notfound"
 	}
 	return "other"
+}
+
+// c16RefErrClass classifies what cmd/go says about the program; anything else is "other".
+func c16RefErrClass(msg string) string {
+	switch {
+	case strings.Contains(msg, "import cycle not allowed"):
+		return "cycle"
+	case strings.Contains(msg, "no Go files in"):
+		return "nogo"
+	case strings.Contains(msg, "cannot find package"):
+		return "notfound"
+	}
+	return "other"
+}
+
+// c16ToolchainTrouble: the failure is about the Go installation or its build cache, not the program.
+func c16ToolchainTrouble(msg string) bool {
+	for _, k := range []string{"go-build", "could not import", "is not in std", "cannot find GOROOT", "signal: killed", "no space left", "cannot allocate memory", "resource temporarily unavailable", "failed to initialize build cache"} {
+		if strings.Contains(msg, k) {
+			return true
+		}
+	}
+	return false
 }
 
 func c16Lines(out string) []string {
@@ -1357,6 +1657,9 @@ func runC16Eval(args []string) error {
 		return err
 	}
 	debug.SetMaxStack(c16MaxStack)
+	// A file entry is named relative to the working directory, which is the origin of the tree, and
+	// GOPATH is absolute: that is what rootFromSourceLocation keys on (os.Getwd() joined with the
+	// directory of the input file must lie inside GOPATH/src), whatever filesystem is supplied.
 	var res c16out
 	if *mode == "mapfs" {
 		mfs := fstest.MapFS{}
@@ -1364,20 +1667,48 @@ func runC16Eval(args []string) error {
 			mfs[name] = &fstest.MapFile{Data: []byte(src)}
 		}
 		bfs := &c16BudgetFS{FS: mfs, limit: c16OpenBudget}
-		path := c.Entry
 		if c.File {
-			path = c.Entry + "/p.go"
+			// the working directory is an empty directory; the supplied filesystem shows the tree below it
+			wd, err := os.Getwd()
+			if err != nil {
+				return err
+			}
+			pfs := &c16PrefixFS{FS: bfs, prefix: wd}
+			res = c16EvalOne(interp.Options{GoPath: filepath.Join(wd, "gp"), SourcecodeFilesystem: pfs}, c.Entry+"/p.go", 90*time.Second)
+		} else {
+			res = c16EvalOne(interp.Options{GoPath: "gp", SourcecodeFilesystem: bfs}, c.Entry, 90*time.Second)
 		}
-		res = c16EvalOne(interp.Options{GoPath: "gp", SourcecodeFilesystem: bfs}, path, 90*time.Second)
 		res.Opens = bfs.opens
 	} else {
-		path := c.Entry
 		if c.File {
-			path = filepath.Join(*root, c.Entry, "p.go")
+			if err := os.Chdir(*root); err != nil {
+				return err
+			}
+			res = c16EvalOne(interp.Options{GoPath: filepath.Join(*root, "gp")}, c.Entry+"/p.go", 90*time.Second)
+		} else {
+			res = c16EvalOne(interp.Options{GoPath: filepath.Join(*root, "gp")}, c.Entry, 90*time.Second)
 		}
-		res = c16EvalOne(interp.Options{GoPath: filepath.Join(*root, "gp")}, path, 90*time.Second)
 	}
 	return json.NewEncoder(os.Stdout).Encode(res)
+}
+
+// c16PrefixFS shows a filesystem of relative paths below an absolute directory as well: the name
+// prefix/x is x (an fs.FS supplied through Options.SourcecodeFilesystem may accept any name).
+type c16PrefixFS struct {
+	fs.FS
+	prefix string
+}
+
+func (f *c16PrefixFS) Open(name string) (fs.File, error) {
+	switch {
+	case name == f.prefix:
+		name = "."
+	case strings.HasPrefix(name, f.prefix+"/"):
+		name = strings.TrimPrefix(name, f.prefix+"/")
+	case strings.HasPrefix(name, "/"):
+		return nil, &fs.PathError{Op: "open", Path: name, Err: fs.ErrNotExist}
+	}
+	return f.FS.Open(name)
 }
 
 // c16Run writes the program under a scratch root, runs the child (yaegi) and the reference (go run).
@@ -1431,15 +1762,29 @@ func c16Run(c *c16case) (impl c16evalRes, ref c16out, err error) {
 	}
 	impl.Disk = child("disk")
 	impl.MapFS = child("mapfs")
-	{
+	groot := root
+	if c.relInGopath() {
+		// the toolchain gets the variant without relative imports inside GOPATH, in a tree of its own
+		groot = filepath.Join(top, "g")
+		for name, src := range c.refFiles() {
+			full := filepath.Join(groot, name)
+			if err := os.MkdirAll(filepath.Dir(full), 0o755); err != nil {
+				return impl, ref, err
+			}
+			if err := os.WriteFile(full, []byte(src), 0o644); err != nil {
+				return impl, ref, err
+			}
+		}
+	}
+	for attempt := 0; ; attempt++ {
 		ctx, cancel := context.WithTimeout(context.Background(), 300*time.Second)
 		arg := "."
 		if c.File {
 			arg = "p.go"
 		}
 		cmd := exec.CommandContext(ctx, "go", "run", arg)
-		cmd.Dir = filepath.Join(root, c.mainDir())
-		cmd.Env = append(os.Environ(), "GO111MODULE=off", "GOPATH="+filepath.Join(root, "gp"), "GOFLAGS=", "GOPROXY=off", "GOTOOLCHAIN=local")
+		cmd.Dir = filepath.Join(groot, c.mainDir())
+		cmd.Env = append(os.Environ(), "GO111MODULE=off", "GOPATH="+filepath.Join(groot, "gp"), "GOFLAGS=", "GOPROXY=off", "GOTOOLCHAIN=local")
 		var out, errb bytes.Buffer
 		cmd.Stdout, cmd.Stderr = &out, &errb
 		rerr := cmd.Run()
@@ -1448,10 +1793,19 @@ func c16Run(c *c16case) (impl c16evalRes, ref c16out, err error) {
 		if timedOut {
 			return impl, ref, fmt.Errorf("reference go run timed out in %s", cmd.Dir)
 		}
-		ref.Lines = c16Lines(out.String())
+		if rerr != nil && c16ToolchainTrouble(errb.String()) {
+			// the shared build cache or GOROOT is being modified under us (another job cleaning the
+			// cache): not an outcome of the program; try again, then give up as a harness failure
+			if attempt < 4 {
+				time.Sleep(time.Duration(attempt+1) * time.Second)
+				continue
+			}
+			return impl, ref, fmt.Errorf("reference go run cannot work (toolchain trouble): %s", firstLine(errb.String()))
+		}
+		ref = c16out{Lines: c16Lines(out.String())}
 		if rerr != nil {
 			msg := errb.String()
-			ref.Err, ref.Text = c16ErrClass(msg), firstLine(msg)
+			ref.Err, ref.Text = c16RefErrClass(msg), firstLine(msg)
 			// several kinds of error in one build: not a case this generator means to produce
 			n := 0
 			for _, k := range []string{"import cycle not allowed", "cannot find package", "no Go files in"} {
@@ -1464,9 +1818,16 @@ func c16Run(c *c16case) (impl c16evalRes, ref c16out, err error) {
 			}
 			ref.Lines = nil
 		}
-		if c.Contract != "" && (ref.Err == "other" || ref.Err == "several") {
+		if c.Contract == "spec" {
+			if ref.Err == "other" || ref.Err == "several" {
+				t := ref.Text
+				ref = c.gOracle()
+				ref.Text = "spec G (the toolchain refuses this layout: " + t + ")"
+			}
+		} else if c.Contract != "" && (ref.Err == "other" || ref.Err == "several") {
 			ref = c16out{Err: c.Contract, Text: "contract (the toolchain refuses this layout: " + ref.Text + ")"}
 		}
+		break
 	}
 	return impl, ref, nil
 }
@@ -1721,7 +2082,7 @@ func runC16(args []string) error {
 	defer os.RemoveAll(tmp)
 
 	// ------------------------------------------------------------ A. function level
-	only := os.Getenv("VERIF_C16_ONLY") // debugging aid: "matrix" runs the cycle matrix alone
+	only := os.Getenv("VERIF_C16_ONLY") // debugging aid: "matrix" / "proj" run one family alone
 	fnCases := g.fnCases(thorough)
 	if only != "" {
 		fnCases = nil
@@ -1766,7 +2127,7 @@ func runC16(args []string) error {
 	}
 
 	// ------------------------------------------------------------ B. end to end
-	nMain, nFile, nErr, nRegion := 220, 80, 25, 10
+	nMain, nFile, nErr, nRegion := 200, 60, 25, 10
 	if thorough {
 		nMain, nFile, nErr, nRegion = 6000, 2000, 500, 250
 		// VERIF_C16_SCALE=<percent> shrinks the thorough tier (to try the pipeline on a busy machine)
@@ -1793,13 +2154,37 @@ func runC16(args []string) error {
 			progs = append(progs, g.errorCase(k))
 		}
 	}
-	if only == "matrix" {
+	if only != "" {
 		progs = nil
 	}
-	if thorough {
-		progs = append(progs, g.cycleMatrix(4, 0)...)
-	} else {
-		progs = append(progs, g.cycleMatrix(2, 5)...)
+	if only == "" || only == "matrix" {
+		if thorough {
+			progs = append(progs, g.cycleMatrix(4, 0)...)
+		} else {
+			progs = append(progs, g.cycleMatrix(2, 4)...)
+		}
+	}
+	{
+		reps := 2
+		if thorough {
+			reps = 40
+		}
+		for rep := 0; rep < reps; rep++ {
+			for _, where := range []string{"nearest", "gopath", "both", "outer", "nested"} {
+				for n := 1; n <= 3; n++ {
+					for _, mf := range []bool{false, true} {
+						if only == "" || only == "proj" {
+							progs = append(progs, g.projCase(where, n, mf))
+						}
+					}
+				}
+			}
+		}
+		for i := 0; i < nRegion && (only == "" || only == "proj"); i++ {
+			if c := g.retryRegionCase(); c != nil {
+				progs = append(progs, c)
+			}
+		}
 	}
 	regions := []string{"subdir-shadow", "memo-by-path", "xx-collapse", "vendor-nogofiles", "relative-nonentry", "relative-root", "entry-file-vendor"}
 	if only != "" {
@@ -1854,10 +2239,26 @@ func runC16(args []string) error {
 			if c.Quiet {
 				sm.count("e2e:cycle-matrix:quiet-packages")
 			}
-			if strings.HasPrefix(r.ref.Text, "contract") {
+			if strings.HasPrefix(r.ref.Text, "contract") || strings.HasPrefix(r.ref.Text, "spec G") {
 				sm.count("e2e:cycle-matrix:reference-is-the-contract")
 			} else {
 				sm.count("e2e:cycle-matrix:reference-is-go-run")
+			}
+		} else if strings.HasPrefix(c.Stream, "proj:") {
+			f := strings.Split(c.Stream, ":")
+			sm.count("e2e:proj")
+			sm.count("e2e:proj:" + f[1])
+			sm.count("e2e:proj:" + f[2])
+			if len(f) > 3 {
+				sm.count("e2e:proj:main-first")
+			}
+			if c.Region != "" {
+				sm.count("e2e:proj:in-region:" + c.Region)
+			}
+			if strings.HasPrefix(r.ref.Text, "spec G") {
+				sm.count("e2e:proj:reference-is-spec-G")
+			} else {
+				sm.count("e2e:proj:reference-is-go-run-without-relative-imports")
 			}
 		} else {
 			sm.count("e2e:" + c.Stream)
